@@ -10,6 +10,14 @@ NOTE_COMMON = ("Trusted: Verus 0.2026.09.13 + Z3; the extractor's logged rewrite
                "std/serde_json stand-ins listed in evidence.coverage.trusted_base (external_body / assume_specification / uninterp); ")
 
 CLAIMED = {
+    "C17": {
+        "text": "Proof (hand-written serde code only): Serialize for StringHashSet writes, through any Serializer obeying the SerializeMap protocol, a map declared with "
+                "the set's length whose keys are exactly the elements (once each) and whose values are all `{}`; the Deserialize map visitor obeys the strict key/value "
+                "alternation of MapAccess (so text, bytes and Value deserializers all accept it) and returns exactly the key set; visit_unit returns the empty set.",
+        "note": NOTE_COMMON + "serde's Serializer/SerializeMap/MapAccess protocols are stand-in traits (assumed); HashSet<String> is a stand-in (iteration yields each element once); "
+                "derive-generated code for Request/Reply/ServiceInfo and serde_json itself are trusted, so the full round trip of those types is NOT claimed.",
+        "ref": "5-C17",
+    },
     "C14": {
         "text": "Proof: ThreadPool::new establishes and execute preserves workers.len() <= max_workers (one connection per worker: the bound) and the provisioning "
                 "invariant `workers == max or counter <= workers` where the counter is raised by execute before the job is sent; the worker loop is verified to run the job "
